@@ -14,7 +14,7 @@ def RuleOK (defined : List String) (r : Rule) : Prop :=
   reserved r.name = false ∧ 1 ≤ r.threshold ∧ r.threshold ≤ (r.principals.length : Int) ∧
   r.principals.Nodup ∧ ∀ p ∈ r.principals, p ∈ defined
 
-/-- `RuleOK` without "the listed principals can meet the threshold" (the part F10 breaks) -/
+/-- `RuleOK` without "the listed principals can meet the threshold" (the part finding F10, now repaired, broke) -/
 def RuleStruct (defined : List String) (r : Rule) : Prop :=
   reserved r.name = false ∧ 1 ≤ r.threshold ∧ r.principals.Nodup ∧ ∀ p ∈ r.principals, p ∈ defined
 
@@ -66,11 +66,5 @@ def rootInvB (m : RootMeta) : Bool :=
 /-- What a refused edit may touch: nothing that any query can see (rules and principals);
 only the nil-ness of the principals map may change (`AddPrincipal` creates it before checking). -/
 def TargetsMeta.SameContent (a b : TargetsMeta) : Prop := a.rules = b.rules ∧ a.principals = b.principals
-
-/-- argument lists of a rule edit without repeated principal ids -/
-def TOp.NoDupArgs : TOp → Prop
-  | .addRule _ ids _ _ => ids.Nodup
-  | .updateRule _ ids _ _ => ids.Nodup
-  | _ => True
 
 end Gittuf.Meta
